@@ -1161,7 +1161,15 @@ def rule_config(ctx, facts, rule):
     if d:
         fn, b, s, f = d[0]
         canc = data_origins(prov.of_operand(fn, f["cancelable"]))
-        ok = bool(canc) and all(x.kind == "const" and str(x.key) == "false" for x in canc)
+
+        def is_false(x):
+            if x.kind != "const":
+                return False
+            if str(x.key) == "false":
+                return True
+            c = facts.consts.get(str(x.key))          # a named constant (`Config::DEFAULT_CANCELABLE`)
+            return bool(c) and c.get("v") in (0, False) and c.get("ty", "bool") == "bool"
+        ok = bool(canc) and all(is_false(x) for x in canc)
         detail = "cancelable <- %s, report_interval <- %s" % (origin_strs(canc), origin_strs(prov.of_operand(fn, f["report_interval"]), 3))
     ctx.check(ok, rule, "<%s as Default>::default" % CFG, "-", "Config::default() is the non-cancelable configuration", detail, detail, extra="default")
     for meth, fld in (("cancelable", "cancelable"), ("report_interval", "report_interval")):
